@@ -272,4 +272,342 @@ Section ComponentsOk.
     intros g x Hd Hn. unfold node_connected_component, ensure_undirected. rewrite Hd. cbn [bind].
     rewrite Hn. reflexivity.
   Qed.
+
+  (* ------------------------------------------------------------------ *)
+  (* the "search from every unseen node" loop shared by connected_components
+     and weakly_connected_components, for an abstract search function      *)
+  Fixpoint gen_loop (search : T -> outcome (list T)) (names seen : list T) (acc : list (list T))
+    : outcome (list (list T)) :=
+    match names with
+    | [] => Ok acc
+    | v :: t =>
+      if mem_name teqb v seen then gen_loop search t seen acc else
+      do b <- search v;
+      let hs := to_hashset teqb b in
+      gen_loop search t (union_names teqb seen hs) (acc ++ [hs])
+    end.
+
+  Lemma cc_loop_gen : forall (g : gstate) names seen acc,
+    cc_loop teqb g names seen acc = gen_loop (breadth_first_search teqb g) names seen acc.
+  Proof.
+    intros g. induction names as [ | v t IH ]; intros seen acc; cbn [cc_loop gen_loop]; [reflexivity | ].
+    destruct (mem_name teqb v seen); [apply IH | ].
+    destruct (breadth_first_search teqb g v); cbn [bind]; try reflexivity. apply IH.
+  Qed.
+
+  Lemma wcc_loop_gen : forall (g : gstate) names seen acc,
+    wcc_loop teqb g names seen acc = gen_loop (plain_bfs teqb g) names seen acc.
+  Proof.
+    intros g. induction names as [ | v t IH ]; intros seen acc; cbn [wcc_loop gen_loop]; [reflexivity | ].
+    destruct (mem_name teqb v seen); [apply IH | ].
+    destruct (plain_bfs teqb g v); cbn [bind]; try reflexivity. apply IH.
+  Qed.
+
+  Lemma NoDup_app_disjoint : forall (a b : list T),
+    NoDup a -> NoDup b -> (forall x, In x a -> ~ In x b) -> NoDup (a ++ b).
+  Proof.
+    induction a as [ | h a IH ]; intros b Ha Hb Hd; cbn [app]; [exact Hb | ].
+    inversion Ha; subst. constructor.
+    - rewrite in_app_iff. intros [H | H]; [contradiction | ]. apply (Hd h); [cbn; tauto | exact H].
+    - apply IH; [assumption | assumption | ]. intros x Hx. apply Hd. cbn. tauto.
+  Qed.
+
+  Section GenLoop.
+    Variable R : T -> T -> Prop.
+    Hypothesis R_sym : forall u v, R u v -> R v u.
+    Variable nodes : list T.
+    Hypothesis R_closed : forall u v, In u nodes -> R u v -> In v nodes.
+    Variable search : T -> outcome (list T).
+    Hypothesis search_ok : forall v b, search v = Ok b -> forall y, In y b <-> reach R v y.
+
+    Lemma reach_closed : forall u v, In u nodes -> reach R u v -> In v nodes.
+    Proof.
+      intros u v Hu Hr. induction Hr as [ | a b c _ IH Hbc ]; [exact Hu | ].
+      eapply R_closed; [apply IH; exact Hu | exact Hbc].
+    Qed.
+
+    Record cinv (seen : list T) (acc : list (list T)) : Prop := {
+      c_class : forall c, In c acc -> exists s, In s nodes /\ NoDup c /\ forall y, In y c <-> reach R s y;
+      c_seen : forall y, In y seen <-> In y (concat acc);
+      c_nodup : NoDup (concat acc)
+    }.
+
+    Lemma gen_loop_mono : forall names seen acc cs y,
+      gen_loop search names seen acc = Ok cs -> In y (concat acc) -> In y (concat cs).
+    Proof.
+      induction names as [ | w t IHt ]; intros seen acc cs y H Hc; cbn [gen_loop] in H.
+      - inversion H; subst. exact Hc.
+      - destruct (mem_name teqb w seen); [apply (IHt _ _ _ _ H Hc) | ].
+        destruct (search w); cbn [bind] in H; try discriminate.
+        apply (IHt _ _ _ _ H). rewrite concat_app, in_app_iff. tauto.
+    Qed.
+
+    Lemma gen_loop_inv : forall names seen acc cs,
+      gen_loop search names seen acc = Ok cs ->
+      incl names nodes -> cinv seen acc ->
+      exists seen', cinv seen' cs /\ (forall v, In v names -> In v seen').
+    Proof.
+      induction names as [ | v t IH ]; intros seen acc cs H Hin Hinv; cbn [gen_loop] in H.
+      - inversion H; subst. exists seen. split; [exact Hinv | intros v []].
+      - assert (Hv : In v nodes) by (apply Hin; cbn; tauto).
+        assert (Ht : incl t nodes) by (intros z Hz; apply Hin; cbn; tauto).
+        destruct (mem_name teqb v seen) eqn:Hm.
+        + apply mem_name_In in Hm. destruct (IH _ _ _ H Ht Hinv) as [s' [Hi Hall]].
+          exists s'. split; [exact Hi | ]. intros z [Hz | Hz]; [ | apply Hall; exact Hz].
+          subst z. destruct Hinv as [C1 C2 C3]. destruct Hi as [D1 D2 D3].
+          apply D2. apply (gen_loop_mono _ _ _ _ v H). apply C2. exact Hm.
+        + apply mem_name_false in Hm.
+          destruct (search v) as [b | | | ] eqn:Hs; cbn [bind] in H; try discriminate.
+          destruct (to_hashset_spec b) as [Hnd Hel].
+          assert (Hinv' : cinv (union_names teqb seen (to_hashset teqb b)) (acc ++ [to_hashset teqb b])).
+          { destruct Hinv as [C1 C2 C3]. constructor.
+            - intros c Hc. apply in_app_iff in Hc. destruct Hc as [Hc | [Hc | []]].
+              + apply C1. exact Hc.
+              + subst c. exists v. split; [exact Hv | split; [exact Hnd | ] ].
+                intros y. rewrite Hel. apply (search_ok v b Hs).
+            - intros y. rewrite union_names_In, concat_app, in_app_iff, C2. cbn [concat].
+              rewrite app_nil_r. tauto.
+            - rewrite concat_app. cbn [concat]. rewrite app_nil_r.
+              apply NoDup_app_disjoint; [exact C3 | exact Hnd | ].
+              intros x Hx Hxb. apply in_concat in Hx. destruct Hx as [c [Hc Hxc]].
+              destruct (C1 c Hc) as [s [Hs' [_ Hcl]]].
+              apply Hm. apply C2. apply in_concat. exists c. split; [exact Hc | ].
+              apply Hcl. apply Hel in Hxb. apply (search_ok v b Hs) in Hxb. apply Hcl in Hxc.
+              eapply reach_trans; [exact Hxc | ]. apply reach_sym; [exact R_sym | exact Hxb]. }
+          destruct (IH _ _ _ H Ht Hinv') as [s' [Hi Hall]].
+          exists s'. split; [exact Hi | ]. intros z [Hz | Hz]; [ | apply Hall; exact Hz].
+          subst z. destruct Hi as [D1 D2 D3]. apply D2. apply (gen_loop_mono _ _ _ _ v H).
+          rewrite concat_app, in_app_iff. right. cbn [concat]. rewrite app_nil_r.
+          apply Hel. apply (search_ok v b Hs). apply reach_refl.
+    Qed.
+
+    Theorem gen_loop_partition : forall cs,
+      gen_loop search nodes [] [] = Ok cs ->
+      is_component_partition nodes (reach R) cs.
+    Proof.
+      intros cs H.
+      destruct (gen_loop_inv nodes [] [] cs H (incl_refl nodes)) as [seen' [[C1 C2 C3] Hall]].
+      { constructor.
+        - intros c [].
+        - intros y. cbn. tauto.
+        - constructor. }
+      split; [ | split; [ | split ] ].
+      - intros c Hc Hnil. destruct (C1 c Hc) as [s [_ [_ Hcl]]]. subst c.
+        apply (Hcl s). apply reach_refl.
+      - exact C3.
+      - intros x. split.
+        + intros Hx. apply C2. apply Hall. exact Hx.
+        + intros Hx. apply in_concat in Hx. destruct Hx as [c [Hc Hxc]].
+          destruct (C1 c Hc) as [s [Hs [_ Hcl]]]. apply (reach_closed s x Hs). apply Hcl. exact Hxc.
+      - intros c x y Hc Hx Hy. destruct (C1 c Hc) as [s [Hs [_ Hcl]]]. rewrite Hcl.
+        apply Hcl in Hx. split; intros Hr.
+        + eapply reach_trans; [apply reach_sym; [exact R_sym | exact Hx] | exact Hr].
+        + eapply reach_trans; [exact Hx | exact Hr].
+    Qed.
+  End GenLoop.
+
+  (* connected_components: for every undirected graph state whose adjacency query is
+     symmetric and stays inside the node list, the result IS the partition of the node
+     list into the classes of reachability along that adjacency *)
+  Theorem connected_components_partition : forall (g : gstate) cs,
+    (forall u v, step g u v -> step g v u) ->
+    (forall u v, In u (g_nodes g) -> step g u v -> In v (g_nodes g)) ->
+    connected_components teqb g = Ok cs ->
+    is_component_partition (g_nodes g) (reach (step g)) cs.
+  Proof.
+    intros g cs Hsym Hcl H. unfold connected_components in H.
+    destruct (ensure_undirected g); cbn [bind] in H; try discriminate.
+    rewrite cc_loop_gen in H.
+    apply (gen_loop_partition (step g) Hsym (g_nodes g) Hcl (breadth_first_search teqb g)); [ | exact H].
+    intros v b Hb y. destruct (bfs_correct g v b Hb) as [_ [_ H3]]. apply H3.
+  Qed.
+
+  (* ------------------------------------------------------------------ *)
+  (* plain_bfs (successors and predecessors name maps) and weak components *)
+  Definition wstep (g : gstate) (u v : T) : Prop :=
+    In v (name_row teqb (successors g) u) \/ In v (name_row teqb (predecessors g) u).
+
+  Record pinv (g : gstate) (x : T) (front seen ret : list T) : Prop := {
+    p_same : forall y, In y ret <-> In y seen;
+    p_reach : forall u, In u seen \/ In u front -> reach (wstep g) x u;
+    p_closed : forall u v, In u seen -> wstep g u v -> In v seen \/ In v front;
+    p_start : In x seen \/ In x front
+  }.
+
+  Lemma plain_level_inv : forall (g : gstate) x lvl seen ret next seen' ret' next',
+    plain_level teqb g lvl seen ret next = (seen', ret', next') ->
+    pinv g x (lvl ++ next) seen ret ->
+    pinv g x next' seen' ret'.
+  Proof.
+    intros g x. induction lvl as [ | v t IH ]; intros seen ret next seen' ret' next' H Hinv.
+    - cbn in H. inversion H; subst. exact Hinv.
+    - cbn [plain_level] in H. destruct (mem_name teqb v seen) eqn:Hm.
+      + apply mem_name_In in Hm. apply (IH _ _ _ _ _ _ H).
+        destruct Hinv as [I0 I2 I3 I5]. constructor.
+        * exact I0.
+        * intros u Hu. apply I2. cbn. tauto.
+        * intros u w Hu Hs. destruct (I3 u w Hu Hs) as [Hw | Hw]; [tauto | ].
+          cbn in Hw. destruct Hw as [Hw | Hw]; [subst; tauto | tauto].
+        * destruct I5 as [I5 | I5]; [tauto | ]. cbn in I5. destruct I5 as [I5 | I5]; [subst; tauto | tauto].
+      + apply mem_name_false in Hm. apply (IH _ _ _ _ _ _ H).
+        destruct Hinv as [I0 I2 I3 I5]. constructor.
+        * intros y. rewrite !in_app_iff, I0. cbn. tauto.
+        * intros u Hu. rewrite !in_app_iff, !union_names_In in Hu. cbn in Hu.
+          destruct Hu as [[Hu | [Hu | []]] | [Hu | [[Hu | Hu] | Hu]]].
+          -- apply I2. tauto.
+          -- subst. apply I2. right. cbn. tauto.
+          -- apply I2. right. cbn. rewrite in_app_iff. tauto.
+          -- apply I2. right. cbn. rewrite in_app_iff. tauto.
+          -- eapply reach_step; [apply I2; right; cbn; left; reflexivity | ]. left. exact Hu.
+          -- eapply reach_step; [apply I2; right; cbn; left; reflexivity | ]. right. exact Hu.
+        * intros u w Hu Hs. rewrite in_app_iff in Hu. cbn in Hu.
+          rewrite !in_app_iff, !union_names_In. cbn.
+          destruct Hu as [Hu | [Hu | []]].
+          -- destruct (I3 u w Hu Hs) as [Hw | Hw]; [tauto | ].
+             cbn in Hw. rewrite in_app_iff in Hw. destruct Hw as [Hw | [Hw | Hw]]; subst; tauto.
+          -- subst u. destruct Hs as [Hs | Hs]; tauto.
+        * rewrite in_app_iff. cbn. destruct I5 as [I5 | I5]; [tauto | ].
+          cbn in I5. rewrite in_app_iff in I5. rewrite in_app_iff, !union_names_In.
+          destruct I5 as [I5 | [I5 | I5]]; subst; tauto.
+  Qed.
+
+  Lemma plain_loop_inv : forall (g : gstate) x fuel seen ret next l,
+    plain_loop teqb fuel g seen ret next = Ok l ->
+    pinv g x next seen ret ->
+    exists seen', pinv g x [] seen' l.
+  Proof.
+    intros g x. induction fuel as [ | f IH ]; intros seen ret next l H Hinv.
+    - destruct next; cbn in H; [ | discriminate]. inversion H; subst. exists seen. exact Hinv.
+    - destruct next as [ | n0 nt ].
+      + cbn in H. inversion H; subst. exists seen. exact Hinv.
+      + cbn [plain_loop] in H.
+        destruct (plain_level teqb g (n0 :: nt) seen ret []) as [[s1 r1] n1] eqn:Hl.
+        apply (IH _ _ _ _ H). eapply plain_level_inv; [exact Hl | ].
+        rewrite app_nil_r. exact Hinv.
+  Qed.
+
+  Theorem plain_bfs_correct : forall (g : gstate) x l,
+    plain_bfs teqb g x = Ok l -> forall y, In y l <-> reach (wstep g) x y.
+  Proof.
+    intros g x l H. unfold plain_bfs in H.
+    destruct (plain_loop_inv g x _ _ _ _ _ H) as [seen' [I0 I2 I3 I5]].
+    { constructor.
+      - intros y. tauto.
+      - intros u [[] | [Hu | []]]. subst. apply reach_refl.
+      - intros u v [].
+      - right. cbn. tauto. }
+    assert (Hx : In x seen') by (destruct I5 as [I5 | []]; exact I5).
+    intros y. rewrite I0. split.
+    - intros Hy. apply I2. tauto.
+    - intros Hr. clear H I2 I5 I0. induction Hr as [ | a b c _ IH Hbc ].
+      + exact Hx.
+      + destruct (I3 b c (IH Hx) Hbc) as [Hc | []]. exact Hc.
+  Qed.
+
+  (* weakly_connected_components: partition of the node list into the classes of
+     reachability along successors-or-predecessors (the name maps the function reads),
+     whenever that relation is symmetric (predecessors = inverse successors) and stays
+     inside the node list *)
+  Theorem weakly_connected_components_partition : forall (g : gstate) cs,
+    (forall u v, wstep g u v -> wstep g v u) ->
+    (forall u v, In u (g_nodes g) -> wstep g u v -> In v (g_nodes g)) ->
+    weakly_connected_components teqb g = Ok cs ->
+    is_component_partition (g_nodes g) (reach (wstep g)) cs.
+  Proof.
+    intros g cs Hsym Hcl H. unfold weakly_connected_components in H.
+    destruct (ensure_directed g); cbn [bind] in H; try discriminate.
+    rewrite wcc_loop_gen in H.
+    apply (gen_loop_partition (wstep g) Hsym (g_nodes g) Hcl (plain_bfs teqb g)); [ | exact H].
+    intros v b Hb y. apply (plain_bfs_correct g v b Hb).
+  Qed.
+
+  (* ------------------------------------------------------------------ *)
+  (* the coherence hypotheses are decidable: executable tests that imply them *)
+  Lemma contains_key_In : forall {V} (m : list (T * V)) k,
+    contains_key teqb k m = true -> In k (map fst m).
+  Proof.
+    intros V m k. unfold contains_key. induction m as [ | [k0 v0] t IH ]; cbn [lookup map fst]; [discriminate | ].
+    destruct (teqb k k0) eqn:E.
+    - apply teqb_spec in E. subst. cbn. tauto.
+    - intros H. right. apply IH. exact H.
+  Qed.
+
+  Lemma step_dom : forall (g : gstate) u v, step g u v -> In u (map fst (nodes_map g)).
+  Proof.
+    intros g u v [ns [H _]]. unfold get_successors_or_neighbors in H.
+    destruct (contains_key teqb u (nodes_map g)) eqn:E; [apply contains_key_In; exact E | exfalso].
+    unfold get_successor_nodes, idx_set_nodes, get_neighbor_nodes in H. rewrite E in H. cbn [negb] in H.
+    destruct (directed (sp g)); cbn in H; discriminate.
+  Qed.
+
+  Lemma step_ok_sound : forall (g : gstate),
+    step_ok_b teqb g = true ->
+    (forall u v, step g u v -> step g v u) /\
+    (forall u v, In u (g_nodes g) -> step g u v -> In v (g_nodes g)).
+  Proof.
+    intros g H. unfold step_ok_b in H. apply andb_true_iff in H. destruct H as [Hk Hs].
+    rewrite forallb_forall in Hk, Hs.
+    assert (Hcore : forall u v, step g u v -> In v (g_nodes g) /\ step g v u).
+    { intros u v Hst. pose proof (step_dom g u v Hst) as Hd. apply Hk in Hd.
+      apply (memb_In teqb teqb_spec) in Hd. specialize (Hs u Hd).
+      destruct Hst as [ns [Hg Hv]]. rewrite Hg in Hs. rewrite forallb_forall in Hs.
+      specialize (Hs v Hv). apply andb_true_iff in Hs. destruct Hs as [H1 H2].
+      apply (memb_In teqb teqb_spec) in H1. split; [exact H1 | ].
+      destruct (get_successors_or_neighbors teqb g v) as [ns' | | | ] eqn:Hg'; try discriminate.
+      exists ns'. split; [exact Hg' | ]. apply (memb_In teqb teqb_spec). exact H2. }
+    split.
+    - intros u v Hst. apply (Hcore u v Hst).
+    - intros u v _ Hst. apply (Hcore u v Hst).
+  Qed.
+
+  Lemma lookup_In_row : forall (m : list (T * list T)) u v,
+    In v (name_row teqb m u) -> exists row, In (u, row) m /\ In v row.
+  Proof.
+    intros m u v. unfold name_row. induction m as [ | [k0 r0] t IH ]; cbn [lookup]; [intros [] | ].
+    destruct (teqb u k0) eqn:E.
+    - apply teqb_spec in E. subst. intros H. exists r0. cbn. tauto.
+    - intros H. destruct (IH H) as [row [H1 H2]]. exists row. cbn. tauto.
+  Qed.
+
+  Lemma wstep_ok_sound : forall (g : gstate),
+    wstep_ok_b teqb g = true ->
+    (forall u v, wstep g u v -> wstep g v u) /\
+    (forall u v, In u (g_nodes g) -> wstep g u v -> In v (g_nodes g)).
+  Proof.
+    intros g H. unfold wstep_ok_b in H. apply andb_true_iff in H. destruct H as [Hs Hp].
+    rewrite forallb_forall in Hs, Hp.
+    assert (Hcore : forall u v, wstep g u v -> In v (g_nodes g) /\ wstep g v u).
+    { intros u v [Hst | Hst].
+      - destruct (lookup_In_row _ _ _ Hst) as [row [Hin Hv]]. specialize (Hs _ Hin).
+        rewrite forallb_forall in Hs. specialize (Hs v Hv). cbn [fst snd] in Hs.
+        apply andb_true_iff in Hs. destruct Hs as [H1 H2].
+        apply (memb_In teqb teqb_spec) in H1. apply (memb_In teqb teqb_spec) in H2.
+        split; [exact H1 | right; exact H2].
+      - destruct (lookup_In_row _ _ _ Hst) as [row [Hin Hv]]. specialize (Hp _ Hin).
+        rewrite forallb_forall in Hp. specialize (Hp v Hv). cbn [fst snd] in Hp.
+        apply andb_true_iff in Hp. destruct Hp as [H1 H2].
+        apply (memb_In teqb teqb_spec) in H1. apply (memb_In teqb teqb_spec) in H2.
+        split; [exact H1 | left; exact H2]. }
+    split.
+    - intros u v Hst. apply (Hcore u v Hst).
+    - intros u v _ Hst. apply (Hcore u v Hst).
+  Qed.
+
+  Corollary connected_components_checked : forall (g : gstate) cs,
+    step_ok_b teqb g = true ->
+    connected_components teqb g = Ok cs ->
+    is_component_partition (g_nodes g) (reach (step g)) cs.
+  Proof.
+    intros g cs Hb H. destruct (step_ok_sound g Hb) as [H1 H2].
+    apply (connected_components_partition g cs H1 H2 H).
+  Qed.
+
+  Corollary weakly_connected_components_checked : forall (g : gstate) cs,
+    wstep_ok_b teqb g = true ->
+    weakly_connected_components teqb g = Ok cs ->
+    is_component_partition (g_nodes g) (reach (wstep g)) cs.
+  Proof.
+    intros g cs Hb H. destruct (wstep_ok_sound g Hb) as [H1 H2].
+    apply (weakly_connected_components_partition g cs H1 H2 H).
+  Qed.
 End ComponentsOk.
